@@ -96,26 +96,33 @@ def lpcOnly : Op → Bool
 def renderRefs (h : List Cell) : String :=
   ",".intercalate ((h.filter (·.vis)).map (fun c => if c.live then toString c.ref else "x"))
 
-def renderStats (lpc : Bool) (st : Stats) : String :=
-  let strs := if lpc then s!"{st.distinctStrings},-" else s!"{st.distinctStrings},{st.allocdStrings}"
+/-- `allocd_strings` is also moved by the apply cache (cached function names keep a string reference), so it is
+    compared only until the first apply() of the case (clone / call_out sweep / anything in lpc mode) -/
+def renderStats (noAllocd : Bool) (st : Stats) : String :=
+  let strs := if noAllocd then s!"{st.distinctStrings},-" else s!"{st.distinctStrings},{st.allocdStrings}"
   s!"{st.numArrays},{st.arrayBytes},{st.numMappings},{st.mapNodes},{strs},{st.objects}"
 
-def renderState (lpc : Bool) (s : St) : String :=
-  s!"ok r:{renderRefs s.heap} st:{renderStats lpc s.stats}"
+def renderState (noAllocd : Bool) (s : St) : String :=
+  s!"ok r:{renderRefs s.heap} st:{renderStats noAllocd s.stats}"
 
-def runLines (lpc : Bool) : St → List Op → List String → List String
-  | _, [], acc => acc.reverse
-  | s, op :: ops, acc =>
-    if (lpc && unitOnly op) || (!lpc && lpcOnly op) then runLines lpc s ops ("skip" :: acc)
+def applies : Op → Bool
+  | .newobj _ => true
+  | .sweep => true
+  | _ => false
+
+def runLines (lpc : Bool) : Bool → St → List Op → List String → List String
+  | _, _, [], acc => acc.reverse
+  | na, s, op :: ops, acc =>
+    if (lpc && unitOnly op) || (!lpc && lpcOnly op) then runLines lpc na s ops ("skip" :: acc)
     else match step s op with
-      | .ok s' => runLines lpc s' ops (renderState lpc s' :: acc)
-      | .skip => runLines lpc s ops ("skip" :: acc)
+      | .ok s' => let na := na || applies op; runLines lpc na s' ops (renderState na s' :: acc)
+      | .skip => runLines lpc na s ops ("skip" :: acc)
       | .fail e => (e.name :: acc).reverse
 
 def runModel (lines : List String) : List String :=
   let p := parseCase lines
   if !p.bad.isEmpty then p.bad.map (fun l => s!"bad-line {l}")
-  else runLines p.lpc St.init p.ops []
+  else runLines p.lpc p.lpc St.init p.ops []
 
 def runJudge (body : List String) : List String :=
   let (input, impl) := splitJudge body
